@@ -19,13 +19,20 @@ import (
 	"verif/harness/internal/tracefmt"
 )
 
-const gpuMem = 100
+// memOn is GetResourceGpuMemory(ResReq) of the pod on a node whose devices have gmem memory units
+func memOn(pc PodCfg, gmem int) int {
+	if pc.Kind == "mem" {
+		return pc.Mem
+	}
+	return pc.Gq * gmem / 1000
+}
 
 func randomCfg(rng *rand.Rand) *Cfg {
 	cfg := &Cfg{Nodes: map[string]NodeCfg{}, Queues: map[string]QueueCfg{}, Jobs: map[string]JobCfg{}, Pods: map[string]PodCfg{}}
 	for i := 0; i < 12; i++ {
 		cfg.Groups = append(cfg.Groups, fmt.Sprintf("g%d", i+1))
 	}
+	labelled := rng.Intn(2) == 0 // nodes carry nvidia.com/gpu.memory (of different sizes); only then gpu-memory pods exist
 	nn := 2 + rng.Intn(2)
 	type nstate struct {
 		freeGpu, freeCpu int
@@ -37,7 +44,11 @@ func randomCfg(rng *rand.Rand) *Cfg {
 		name := fmt.Sprintf("n%d", i+1)
 		g := 1 + rng.Intn(4)
 		c := 4000 + 2000*rng.Intn(4)
-		cfg.Nodes[name] = NodeCfg{Gpu: g, Cpu: c}
+		gm := 100
+		if labelled {
+			gm = []int{8000, 16000}[(i+rng.Intn(3))%2]
+		}
+		cfg.Nodes[name] = NodeCfg{Gpu: g, Cpu: c, Gmem: gm}
 		ns[name] = &nstate{g, c, map[string]int{}}
 		nodeNames = append(nodeNames, name)
 	}
@@ -62,8 +73,11 @@ func randomCfg(rng *rand.Rand) *Cfg {
 		k := 1 + rng.Intn(3)
 		cfg.Jobs[jn] = JobCfg{Queue: leaves[rng.Intn(len(leaves))], NP: rng.Intn(2), Min: 1 + rng.Intn(k)}
 		kind := "whole"
-		if rng.Intn(5) < 2 {
+		if x := rng.Intn(10); x < 4 {
 			kind = "frac"
+			if labelled && x < 2 {
+				kind = "mem"
+			}
 		}
 		for t := 0; t < k && np < 10; t++ {
 			np++
@@ -75,9 +89,10 @@ func randomCfg(rng *rand.Rand) *Cfg {
 					pc.Gpu = 2
 				}
 				pc.Gq = 1000 * pc.Gpu
+			} else if kind == "frac" {
+				pc.Gq = []int{250, 500, 500}[rng.Intn(3)]
 			} else {
-				pc.Mem = []int{25, 50, 50}[rng.Intn(3)]
-				pc.Gq = pc.Mem * 10
+				pc.Mem = []int{2000, 4000}[rng.Intn(2)]
 			}
 			// place it?
 			if rng.Intn(10) < 6 {
@@ -88,11 +103,12 @@ func randomCfg(rng *rand.Rand) *Cfg {
 						s.freeGpu -= pc.Gpu
 						s.freeCpu -= pc.Cpu
 						pc.St, pc.Node = "Running", n
-					} else if kind == "frac" {
+					} else if kind != "whole" {
 						placed := false
+						need := memOn(pc, cfg.Nodes[n].Gmem)
 						for _, g := range sortedKeys(s.groups) {
-							if s.groups[g] >= pc.Mem && rng.Intn(2) == 0 {
-								s.groups[g] -= pc.Mem
+							if s.groups[g] >= need && rng.Intn(2) == 0 {
+								s.groups[g] -= need
 								pc.Groups = []string{g}
 								placed = true
 								break
@@ -102,7 +118,7 @@ func randomCfg(rng *rand.Rand) *Cfg {
 							g := cfg.Groups[nextGroup]
 							nextGroup++
 							s.freeGpu--
-							s.groups[g] = gpuMem - pc.Mem
+							s.groups[g] = cfg.Nodes[n].Gmem - need
 							pc.Groups = []string{g}
 							placed = true
 						}
@@ -198,11 +214,11 @@ func (g *gen) placements(p string, alloc bool) [][2]any {
 			if um <= 0 || am == rm {
 				continue
 			}
-			free := gpuMem - am
+			free := int64(g.r.cfg.Nodes[n].Gmem) - am
 			if !alloc {
 				free += rm
 			}
-			if free >= int64(pc.Mem) {
+			if free >= int64(memOn(pc, g.r.cfg.Nodes[n].Gmem)) {
 				out = append(out, [2]any{n, []string{id}})
 			}
 		}
@@ -322,7 +338,7 @@ func (g *gen) step() bool {
 					for _, pl := range g.placements(p, false) {
 						pl := pl
 						n, gs := pl[0].(string), pl[1].([]string)
-						if n == home && r.cfg.Pods[p].Kind == "frac" && !eqGroups(gs, homeGroups) && g.clean {
+						if n == home && r.cfg.Pods[p].Kind != "whole" && !eqGroups(gs, homeGroups) && g.clean {
 							continue // GPU move of an evicted shared pod (finding F14)
 						}
 						add(3, func() {
